@@ -20,6 +20,8 @@
 //   O3 balance, judged only for histories that end with cleanup() then destruction (1.7): no module has an
 //      outstanding successful init hook or start hook.
 //   O4 no crash / sanitizer report on any history (incl. destroy without cleanup).
+//   O6 no cleanup hook of a module while an ancestor still has a successful start hook outstanding (stop phase of the
+//      tree completes before its cleanup phase begins: the exact reverse of "init all, start all").
 //   O5 an OPTIONAL child whose subtree contains a failing module never changes the hooks of any module
 //      outside that subtree: the hook log projected on the outside modules equals the log of the same
 //      history on the program with that subtree removed (executed on the real code as well).
@@ -256,6 +258,10 @@ static void oracle(const Prog &p, const Run &r, bool judge_balance, int skip, st
         a.os[x] = 0;
         break;
       case HC:
+        // O6 (nesting of the phases): the cleanup phase of a subtree begins only after the whole running phase has been
+        // undone - a module is never cleaned up while an ancestor is still started (exact reverse of I* S* is T* C*)
+        // (judged like balance only for histories that end with an explicit cleanup(): hooks cannot be dispatched from ~Module of a running root)
+        if (judge_balance) for (int anc = p.par[x]; anc >= 0; anc = p.par[anc]) if (a.os[anc]) { add("cleanup-hook-while-an-ancestor-is-still-started", at(i)); break; }
         if (a.os[x]) add("cleanup-hook-before-stop-" + cause(p, log, n, x, HS, a.spass[x], skip), at(i));
         if (!a.oi[x]) add("cleanup-hook-without-successful-init", at(i));
         a.oi[x] = 0;
